@@ -74,6 +74,10 @@ def run(ctx):
     if nondet_known:
         ctx.known("C18-orderby-repeated-keys: ORDER BY with a repeated key is rewritten by ranging over a Go map, the extracted "
                   "order of keys changes from parse to parse (%d statements in this run)" % nondet_known)
+    for r in [r for r in srows if r.get("earlier_changed")][:3]:
+        ctx.violation({"kind": "earlier-statement-changed-by-a-later-parse", "case": r,
+                       "explain": "a Statement built by an earlier Parse on the same parser reads differently after later statements "
+                                  "were parsed (shared storage between the parser's hooks and the statements they built)"})
     diff = [r for r in srows if not r["same"]]
     known = vcheck.known_findings("C18")
     excused, unexplained = [], []
@@ -164,6 +168,8 @@ def search(ctx, broken):
     try:
         srows = c17.hparse(["-mode", "state", "-n", "3000", "-seed", str(ctx.seed), "-exhaust", "1"])
         for r in srows:
+            if r.get("earlier_changed"):
+                return {"kind": "earlier-statement-changed-by-a-later-parse", "case": r}
             if not r["same"]:
                 return {"kind": "statement-meaning-depends-on-history" if r["kind"] == "state" else "statement-meaning-not-a-function-of-its-text",
                         "case": r}
